@@ -23,13 +23,16 @@ type Cancel struct {
 }
 
 type Obs struct {
-	GapSS int64 `json:"gap_ss"`
-	GapES int64 `json:"gap_es"`
-	Timed bool  `json:"timed"`
-	Acc   bool  `json:"acc"`
-	Ws    bool  `json:"ws"`
-	Est   bool  `json:"est"`
-	K     int   `json:"k"`
+	GapSS   int64 `json:"gap_ss"`
+	GapES   int64 `json:"gap_es"`
+	Timed   bool  `json:"timed"`
+	Acc     bool  `json:"acc"`
+	Ws      bool  `json:"ws"`
+	Est     bool  `json:"est"`
+	K       int   `json:"k"`
+	In      []int `json:"in"`      // numbers of the server's messages in the order they arrived on r.In
+	Ack     []int `json:"ack"`     // numbers of the client's messages in the order the server received them
+	Garbled []int `json:"garbled"` // pkg/status run: numbers of the server's messages sent undecodable
 	// cancel iteration only: the server saw the client's TCP connection end within 1 s of the cancellation
 	Closed bool `json:"closed"`
 }
@@ -48,10 +51,12 @@ type Trace struct {
 	// long-lived connection: numbered messages the user handed to r.Out (time of hand-over) and the echoes on r.In
 	SentAt  []int64
 	EchoSeq []int
+	Garbled []int // pkg/status run: numbers of the server's messages that were sent undecodable
 }
 
 type Case struct {
-	Kind string `json:"kind"` // loop | boff
+	Kind string `json:"kind"`          // loop | boff | boffj
+	Via  string `json:"via,omitempty"` // "client": driven through the public wrapper pkg/client (ReconnectAuth inside)
 	// loop
 	Loop     string `json:"loop,omitempty"` // plain | auth
 	Min      int64  `json:"min"`
@@ -92,7 +97,22 @@ func (s Step) coq() string {
 
 func (c Case) cfg() string { return lib.App("mkcfg", lib.Z(c.Min), lib.Z(c.Max), lib.Z(c.Factor)) }
 
+func nlist(xs []int) string {
+	ss := make([]string, len(xs))
+	for i, x := range xs {
+		ss[i] = lib.N(uint64(x))
+	}
+	return lib.List(ss)
+}
+
 func (c Case) coq() string {
+	if c.Kind == "boffj" {
+		ds := make([]string, len(c.Ds))
+		for i, d := range c.Ds {
+			ds[i] = lib.Z(d)
+		}
+		return lib.App("CBoffJ", lib.Z(c.Min), lib.Z(c.Max), lib.List(ds))
+	}
 	if c.Kind == "boff" {
 		ops := make([]string, len(c.Ops))
 		for i, o := range c.Ops {
@@ -122,7 +142,7 @@ func (c Case) coq() string {
 	cp := lib.App("Some", lib.Tuple(lib.Nat(c.Cancel.I), ph))
 	obs := make([]string, len(c.Obs))
 	for i, o := range c.Obs {
-		obs[i] = lib.App("mkobs", lib.Z(o.GapSS), lib.Z(o.GapES), lib.Bool(o.Timed), lib.Bool(o.Acc), lib.Bool(o.Ws), lib.Bool(o.Est), lib.Nat(o.K), lib.Bool(o.Closed))
+		obs[i] = lib.App("mkobs", lib.Z(o.GapSS), lib.Z(o.GapES), lib.Bool(o.Timed), lib.Bool(o.Acc), lib.Bool(o.Ws), lib.Bool(o.Est), lib.Nat(o.K), nlist(o.In), nlist(o.Ack), nlist(o.Garbled), lib.Bool(o.Closed))
 	}
 	return lib.App("CLoop", l, c.cfg(), lib.List(sch), cp, lib.Bool(c.Returned), lib.List(obs))
 }
@@ -190,6 +210,20 @@ func genLoopCases(rng *lib.Rng, n int, thorough bool) []Case {
 	}
 	for i := 0; i < 2; i++ { // one long-lived healthy connection per loop kind
 		cs = append(cs, genStayCase(rng.Fork(), []string{"plain", "auth"}[i], stay))
+	}
+	{ // the same through the public wrapper pkg/client (its own reconws.New(): Min 1 s, Max 10 s, Factor 2)
+		c := genStayCase(rng.Fork(), "auth", stay)
+		c.Via, c.Min, c.Max = "client", 1000*ms, 10000*ms
+		c.Sched = []Step{{A: rng.Pick(accFail), W: "down"}, {A: "ok", W: "acceptstay"}}
+		c.Cancel = Cancel{I: 1, P: "conn"}
+		cs = append(cs, c)
+	}
+	{ // and through pkg/status (pkg/client inside): the server pushes numbered reports, every fifth undecodable
+		c := genStayCase(rng.Fork(), "auth", stay)
+		c.Via, c.Min, c.Max = "status", 1000*ms, 10000*ms
+		c.Sched = []Step{{A: rng.Pick(accFail), W: "down"}, {A: "ok", W: "acceptstay"}}
+		c.Cancel = Cancel{I: 1, P: "conn"}
+		cs = append(cs, c)
 	}
 	for i := 0; i < nOutage; i++ { // long outages
 		cs = append(cs, genOutageCase(rng.Fork(), []string{"plain", "auth"}[i%2]))
@@ -373,6 +407,17 @@ func genBoffCase(r *lib.Rng, i int) Case {
 		} else {
 			c.Ops = append(c.Ops, 0)
 		}
+	}
+	return c
+}
+
+// genBoffJCase: Jitter = true. The durations are random; what can be compared is that each is a value
+// the model allows (within the effective bounds).
+func genBoffJCase(r *lib.Rng, i int) Case {
+	c := genBoffCase(r, i+1)
+	c.Kind = "boffj"
+	if len(c.Ops) > 80 {
+		c.Ops = c.Ops[:80]
 	}
 	return c
 }
